@@ -351,9 +351,12 @@ def run(tier, seed):
     # grammar excludes it - verdicts judged by Validators.tla, as in C18 but after the string has a history
     from . import c18
     ntr, ntexts = [], []
-    for cls in (':D.D', 'L-L.L', 'L.D', 'L.L', '/L', '/L/L', 'L', 'U.U-', ':L.L', 'L.L.', ':D', 'L/L.L'):
-        cls = tuple(cls)
-        text = c18.instantiate(cls, len(ntr))
+    cases = [(tuple(c), None) for c in (':D.D', 'L-L.L', 'L.D', 'L.L', '/L', '/L/L', 'L', 'U.U-', ':L.L', 'L.L.', ':D', 'L/L.L')]
+    # a line feed (class O) at the very end, where a careless '$' lets it pass
+    cases += [(tuple('LLLLO'), 'Ping\n'), (tuple('L.LO'), 'a.b\n'), (tuple('/LO'), '/a\n'), (tuple(':D.DO'), ':1.2\n'),
+              (tuple('LLLLO'), 'Ping\0')]
+    for cls, given in cases:
+        text = given if given is not None else c18.instantiate(cls, len(ntr))
         for k in range(4):
             c18.via_ctors(text, k)                 # uses the string in every role, whatever comes of it
         c18.direct(text)
